@@ -224,6 +224,7 @@ func runHarness(prog *ssa.Program, root *ssa.Package, modPkgs map[string]bool, r
 		x.setupRegistry(st, reg)
 	}
 	st.mark = st.seq
+	st.postInit = true
 	var args []Val
 	for i, p := range hf.Params {
 		if i >= len(rc.Args) {
